@@ -7,6 +7,7 @@ import (
 	"encoding/json"
 	"fmt"
 	"math/rand"
+	"sort"
 
 	"github.com/Tom-Johnston/mamba/graph"
 
@@ -265,6 +266,14 @@ func codecGrid(c *Ctx) []codecIn {
 		allCodecs(randGraphJ(r, n, 0.03))
 		allCodecs(randGraphJ(r, n, 0.5))
 	}
+	// Multicode at its largest sizes (vertex j is the byte j+1, so n = 255 is the last size the format has room for)
+	for _, n := range []int{127, 128, 254, 255} {
+		gj := randGraphJ(r, n, 0.004)
+		gj.E = append(gj.E, obs.PairToRank(n-2, n-1))
+		sort.Ints(gj.E)
+		gj.E = dedupInts(gj.E)
+		add(codecIn{Codec: "mc", G: gj, Rep: []string{"dense", "sparse"}[n%2]})
+	}
 	// Pruefer: every code n <= 5 (6) both ways
 	pn := 5
 	if big {
@@ -340,4 +349,14 @@ func driveC07(c *Ctx) {
 	}
 	meta["calls_per_codec"] = per
 	finish()
+}
+
+func dedupInts(s []int) []int {
+	out := s[:0]
+	for i, v := range s {
+		if i == 0 || v != s[i-1] {
+			out = append(out, v)
+		}
+	}
+	return out
 }
